@@ -53,7 +53,7 @@ TECH_K = 'Kani function contracts / harnesses compiled inside the real crate, di
 TECH_B = 'bounded stand-in: contract evaluated exhaustively over a stated finite domain on the real code'
 
 PROPS = {}
-HOOK_COMMITS = []
+HOOK_COMMITS = ['7ba03210d']
 
 PROPS['C16'] = {
     'level': 'proof',
@@ -91,7 +91,9 @@ PROPS['C14'] = {
                   'The COSE half (pad_cose_sig) is a bounded-exhaustive stand-in and not counted as proved.',
     'level_note': 'CBOR size model (RFC 8949 byte-string header lengths) assumed for to_assertion(); base size uninterpreted; sizes < 2^31; Store::start_save_stream equal-size check not covered.',
     'technique': TECH_V,
-    'parts': [V('verus:pad', 'pad')],
+    'parts': [V('verus:pad', 'pad'),
+              B('native:pad_cose_sig', 'sdk', [{'name': 'c14_pad_cose_sig_every_reserve', 'tier': 'quick'}], functions=[('sdk/src/crypto/cose/sign.rs', 'pad_cose_sig')],
+                bounds='every reserve from the unpadded size to +70000 (empty unprotected header); to +1200 (thorough +70000) for a populated header')],
     'trusted_base': TB_VERUS + ['to_assertion() is Ok and |data| = base(hash) + hdr(|pad|) + |pad| + (pad2 ? 5 + hdr(|pad2|) + |pad2| : 0), hdr = CBOR byte-string header length',
                                 'serde_bytes::ByteBuf::from(v) holds v'],
     'rule': 'obligation = one Verus function-level query over real text extracted from /repo on this run',
@@ -105,7 +107,9 @@ PROPS['C15'] = {
                   'Quantifies over all signers/manifests/dynamic assertions, which tests cannot.',
     'level_note': 'get_composed_manifest length is a function of (raw length, format) (assumed); that the placeholder is large enough in the first place and that the patched asset reads back Valid are not covered.',
     'technique': TECH_V,
-    'parts': [V('verus:embeddable', 'embeddable')],
+    'parts': [V('verus:embeddable', 'embeddable'),
+              B('native:sign_embeddable_api', 'sdk', [{'name': 'c15_sign_embeddable_size_contract', 'tier': 'quick'}], functions=[('sdk/src/builder.rs', 'sign_embeddable'), ('sdk/src/builder.rs', 'placeholder')],
+                bounds='2 (thorough 4) formats x 2 definitions x 1..=14 exclusion ranges x 3 base offsets through the public API (replay driver for the Verus obligation)')],
     'trusted_base': TB_VERUS + ['Store::get_composed_manifest(b, f) returns composed_len(|b|, f) bytes', 'Vec::resize (vstd spec)'],
     'rule': 'obligation = one Verus function-level query over real text extracted from /repo on this run',
     'not_covered': ['placeholder() sizing', 'end-to-end: the patched asset reads back valid', 'sign_data_hashed_embeddable / sign_box_hashed_embeddable (Store-level)'],
@@ -164,6 +168,11 @@ PROPS['C27'] = {
         K('kani:ip_classification', 'sdk', [H('c27_v4_contract'), H('c27_v6_contract'), H('c27_ip_dispatch_uses_contracts')], timeout=900,
           functions=[('sdk/src/http/restricted.rs', 'ipv4_is_non_global'), ('sdk/src/http/restricted.rs', 'ipv6_is_non_global'), ('sdk/src/http/restricted.rs', 'ip_is_non_global')]),
         V('verus:redirect', 'redirect'),
+        B('native:host_strings', 'sdk', [{'name': 'c27_host_string_kernels', 'tier': 'quick'}, {'name': 'c27_build_redirected_request_drops_credentials', 'tier': 'quick'},
+                                         {'name': 'c26_c27_redirect_chains_through_stacked_resolvers', 'tier': 'quick'}],
+          functions=[('sdk/src/http/restricted.rs', 'host_is_non_global'), ('sdk/src/http/restricted.rs', 'normalize_host'), ('sdk/src/http/restricted.rs', 'looks_like_obfuscated_ip'),
+                     ('sdk/src/http/restricted.rs', 'build_redirected_request')],
+          bounds='looks_like_obfuscated_ip: all strings <= 5 (6) over 8 chars; normalize_host: all strings <= 5 over 6 chars; 80 boundary hosts; all subsets of 8 headers; redirect chains over 9 targets'),
     ],
     'trusted_base': TB_VERUS + TB_KANI[1:] + ['std::net::Ipv4Addr/Ipv6Addr predicates as compiled by Kani (real std code)',
                                                 'http / url types are opaque shims in the Verus unit'],
@@ -183,6 +192,9 @@ PROPS['C26'] = {
         K('kani:allow_list_enforced', 'sdk', [H('c26_allow_list_enforced')], timeout=900,
           functions=[('sdk/src/http/restricted.rs', 'http_resolve', r'impl<T: SyncHttpResolver> SyncHttpResolver for RestrictedResolver<T> \{')],
           stubs=['is_uri_allowed -> arbitrary Boolean', 'sanitize_for_log -> empty string']),
+        B('native:host_patterns', 'sdk', [{'name': 'c26_host_pattern_matching_small_domain', 'tier': 'quick'}, {'name': 'c26_c27_redirect_chains_through_stacked_resolvers', 'tier': 'quick'}],
+          functions=[('sdk/src/http/restricted.rs', 'matches'), ('sdk/src/http/restricted.rs', 'is_uri_allowed', None)],
+          bounds='patterns: all strings <= 3 (thorough 4) over {a b . * A} x 3 ports x 4 scheme prefixes; URIs: hosts <= 4 over {a b . A} x 2 schemes x 3 ports; redirect chains of the stacked resolvers over 9 targets'),
     ],
     'trusted_base': TB_KANI,
     'rule': 'proof obligation = one complete Kani harness (all CBMC checks incl. safety checks SUCCESS, covers SATISFIED)',
@@ -229,7 +241,9 @@ PROPS['C23'] = {
     'technique': TECH_K + ' (checkpoint: complete); ' + TECH_V + ' (propagation through the data-hash glue)',
     'parts': [K('kani:checkpoint', 'sdk', [H('c23_checkpoint_contract')], timeout=900, functions=[('sdk/src/context.rs', 'check_progress')],
                 stubs=['std::panic::catch_unwind -> call the closure (Kani cannot compile the unwinding intrinsic)']),
-              V('verus:datahash_verify', 'datahash_verify')],
+              V('verus:datahash_verify', 'datahash_verify'),
+              B('native:cancel_every_callback', 'sdk', [{'name': 'c23_cancel_at_every_callback', 'tier': 'quick'}], functions=[('sdk/src/claim.rs', 'verify_hash_binding')],
+                bounds='every callback index of a full run: read CA.jpg, C.jpg, video1.mp4; sign IMG_0003.jpg, libpng-test.png, video1_no_manifest.mp4')],
     'trusted_base': TB_KANI + TB_VERUS[2:],
     'rule': 'proof obligation = CBMC check of a complete harness, or one Verus function query',
     'not_covered': ['cancel() from another thread at random delays', 'sign / ingredient flows end to end'],
@@ -296,4 +310,83 @@ PROPS['C13'] = {
     'trusted_base': TB_KANI + ['the reference function `reference()` in kani/hash_utils.rs (the statement, executable)'],
     'rule': 'evaluations = CBMC checks decided + native (data, ranges, mode, alg, buffer) tuples compared with the reference digest; non-trivial = at least one non-empty in-range range',
     'not_covered': ['schedules quantifier beyond what native threads happen to do', 'streams longer than 7 bytes', 'more than 3 ranges'],
+}
+
+
+PROPS['C12'] = {
+    'level': 'exploration',
+    'level_text': 'Bounded stand-in (not a proof): the contract "boxes ordered by offset, non-overlapping, inside the file, covering every byte" is evaluated on the real PngIO::get_box_map '
+                  'for every stream of a small PNG grammar (1..=3(4) chunks x 6 chunk types x 0..=2 data bytes x 0..=3 trailing bytes x truncations), on the sidecar handler for lengths 0..=64, '
+                  'and on fixture files of JPEG/GIF/PNG/JPEG XL with bytes appended. The chunk scanner (byteorder reads, String::from_utf8, io::Error drops) timed out in CBMC twice and is outside Verus.',
+    'level_note': 'trailing-bytes findings recorded in KNOWN_FINDINGS.txt (S5); JPEG/GIF/JXL parsers only on fixtures; data-hash regions (get_object_locations_from_stream) not covered.',
+    'technique': TECH_B,
+    'parts': [B('native:box_maps', 'sdk', [T('c12_png_box_map_small_grammar'), T('c12_sidecar_box_map'), T('c12_fixture_box_maps')],
+                functions=[('sdk/src/asset_handlers/png_io.rs', 'get_png_chunk_positions'), ('sdk/src/asset_handlers/png_io.rs', 'get_box_map', r'impl AssetBoxHash for PngIO \{'),
+                           ('sdk/src/asset_handlers/c2pa_io.rs', 'get_box_map', r'impl AssetBoxHash for C2paIO \{')],
+                bounds='PNG grammar: 1..=3 chunks (thorough 4), 6 types, 0..=2 data bytes, 0..=3 trailing bytes, 4 truncation points (thorough: all)')],
+    'trusted_base': ['rustc', 'the contract function box_map_contract in kani/png_io.rs'],
+    'rule': 'one evaluation = one byte stream given to the real get_box_map; non-trivial = accepted stream that is truncated or has trailing bytes',
+    'not_covered': ['JPEG (jfifdump), GIF, JPEG XL parsers beyond fixtures', 'CAIWriter::get_object_locations_from_stream (data-hash regions)', 'restart markers / multiple images'],
+}
+
+PROPS['C01'] = {
+    'level': 'exploration',
+    'level_text': 'Partial; three kernels under contract. (1) Verus proof on the real DataHash::verify_stream_hash_with_progress: Ok exactly when the stored hash equals the hasher outcome '
+                  'for the signed algorithm and exactly the signed exclusions (hasher contract decided under C13). (2) Bounded-exhaustive native stand-in on the real '
+                  'BoxHash::verify_stream_hash_with_progress: result == oracle (every source box matched in order, digests equal, nothing left over) for 222 box layouts x groupings x mutations. '
+                  '(3) Kani contract vec_compare(a,b) <=> a == b for slices <= 8. The overall level is that of the weakest kernel.',
+    'level_note': 'update-manifest re-basing, BMFF hash, handler-reported exclusions (except PNG under C12) and that exclusions are part of the signed bytes (C02) are not covered; collision resistance assumed.',
+    'technique': TECH_V + '; ' + TECH_B + '; ' + TECH_K,
+    'parts': [V('verus:datahash_verify', 'datahash_verify'),
+              K('kani:vec_compare', 'sdk', [H('c01_vec_compare_contract', 'bounded', 'slices of length <= 8')], kind='bounded', timeout=900, functions=[('sdk/src/utils/hash_utils.rs', 'vec_compare')]),
+              B('native:box_hash_verify', 'sdk', [T('c01_box_hash_verify_matches_oracle')], functions=[('sdk/src/assertions/box_hash.rs', 'verify_stream_hash_with_progress')],
+                bounds='1..=4 source boxes over {A,B,C2PA,PNGh}, 2 bytes each, optional gap; 5 groupings; 9 mutation kinds')],
+    'trusted_base': TB_VERUS + TB_KANI[1:] + ['the oracle function in kani/box_hash.rs (statement + PNGh legacy rule)'],
+    'rule': 'one evaluation = one (source box layout, signed assertion) pair run through the real verifier and compared with the oracle; non-trivial = pairs the oracle accepts; plus CBMC checks of the bounded harness',
+    'not_covered': ['Claim::verify_hash_binding (350 lines; update-manifest re-basing)', 'BMFF hash (bmff_hash.rs, 3 kLoC)', 'bytes after the last box of JPEG/PNG/GIF (recorded under C12)'],
+}
+
+
+PROPS['C29'] = {
+    'level': 'exploration',
+    'level_text': 'Bounded stand-in, lexical half only: sanitize_archive_path is compared with the reference normal form (statement: no parent components, absolute paths or backslashes survive; '
+                  'output = the normal components joined by "/") for EVERY string of length <= 7 (8) over {a . / \\ : %}. Path::components made CBMC use 20 GB on 4 characters; str is outside Verus.',
+    'level_note': 'resolve_within_root (canonicalize, symlinks, the file system) is not covered by any contract here; percent-encoded separators are treated as ordinary characters by design.',
+    'technique': TECH_B,
+    'parts': [B('native:sanitize_archive_path', 'sdk', [T('c29_sanitize_archive_path_all_short_strings')], functions=[('sdk/src/utils/path_utils.rs', 'sanitize_archive_path')],
+                bounds='every string of length 0..=7 (thorough 8) over {a . / \\ : %}')],
+    'trusted_base': ['rustc', 'the reference function c29_reference in kani/path_utils.rs'],
+    'rule': 'one evaluation = one input string; non-trivial = strings the reference accepts',
+    'not_covered': ['symbolic links and canonicalisation (resolve_within_root)', 'ResourceStore / archive import / Reader::to_folder call sites', 'Windows prefixes on Windows hosts'],
+}
+
+PROPS['C34'] = {
+    'level': 'exploration',
+    'level_text': 'Bounded stand-in: URI builders followed by the parsers return the manifest label and the assertion / databox / credential label they were built from, relative<->absolute URIs round-trip, '
+                  'and ManifestParts Display followed by manifest_label_to_parts is the identity - for every label of length <= 3 (4) over {a : . _ 1 space -}, the generated urn shapes, '
+                  'every vendor <= 2 (3) over {u r n _ 1 - .} and versions / reasons in {None, 0..=20, usize::MAX}. Rust str machinery is outside Verus and costs minutes to gigabytes in CBMC.',
+    'level_note': 'labels containing "/" or "=" are outside the domain (the SDK does not generate them); one recorded finding (vendor literally "urn").',
+    'technique': TECH_B,
+    'parts': [B('native:labels', 'sdk', [T('c34_uri_round_trips'), T('c34_manifest_parts_round_trip')],
+                functions=[('sdk/src/jumbf/labels.rs', 'to_normalized_uri'), ('sdk/src/jumbf/labels.rs', 'manifest_label_from_uri'), ('sdk/src/jumbf/labels.rs', 'assertion_label_from_uri'),
+                           ('sdk/src/jumbf/labels.rs', 'manifest_label_to_parts'), ('sdk/src/jumbf/labels.rs', 'to_relative_uri'), ('sdk/src/jumbf/labels.rs', 'to_absolute_uri')],
+                bounds='labels <= 3 (4) chars over 7-char alphabet; vendors <= 2 (3) chars over 7-char alphabet + keywords + 32 chars; numbers {None,0..=20,usize::MAX}')],
+    'trusted_base': ['rustc'],
+    'rule': 'one evaluation = one (manifest label[, assertion label]) or one ManifestParts value; non-trivial = has an assertion label / a vendor or version',
+    'not_covered': ['labels with "/" or "="', 'parse_label / label_with_instance in claim.rs', 'unstable_builder_filter helpers'],
+}
+
+PROPS['C31'] = {
+    'level': 'exploration',
+    'level_text': 'Bounded stand-in, registry only: the real PointerRegistry (Mutex<HashMap>) is run next to a model map for EVERY sequence of <= 4 (5) operations over track / validate / untrack x '
+                  '4 addresses (NULL + 3) x 2 types and free x 4 addresses: results, the whole view (frame) and every cleanup counter (exactly-once, no double free) agree after every step. '
+                  'Mutex is outside Verus; HashMap made CBMC intractable.',
+    'level_note': 'the ~120 extern "C" wrappers and guard macros that call the registry are not covered; foreign pointers are modelled as untracked addresses.',
+    'technique': TECH_B,
+    'parts': [B('native:pointer_registry', 'ffi', [T('c31_registry_matches_model_all_short_sequences')],
+                functions=[('c2pa_c_ffi/src/cimpl/utils.rs', 'track'), ('c2pa_c_ffi/src/cimpl/utils.rs', 'validate'), ('c2pa_c_ffi/src/cimpl/utils.rs', 'untrack'), ('c2pa_c_ffi/src/cimpl/utils.rs', 'free')],
+                bounds='all operation sequences of length 1..=4 (thorough 5) over 28 operations from the empty registry', timeout=3000)],
+    'trusted_base': ['rustc', 'the model in kani/ffi_utils.rs'],
+    'rule': 'one evaluation = one operation sequence; non-trivial = contains a track and a free of a non-null address',
+    'not_covered': ['extern "C" entry points and their guard macros', 'concurrent use of the registry', 'error-message retrieval'],
 }
